@@ -3,6 +3,10 @@
 //! usage: vharness <family> --model <rfsm_model> --out <report.json> [--tier quick|thorough]
 //!                 [--seed N] [--replay file]
 mod c19;
+mod dump;
+mod gen_doc;
+mod int;
+mod vdm;
 mod obs;
 mod prng;
 mod proto;
@@ -67,11 +71,24 @@ fn parse_args() -> Args {
 
 fn main() {
     // panics of session threads are observed through JoinHandle; keep stderr quiet
-    std::panic::set_hook(Box::new(|_| {}));
+    if std::env::var("VH_DEBUG").is_err() { std::panic::set_hook(Box::new(|_| {})); }
     let args = parse_args();
+    if args.family == "gencase" {
+        // vharness gencase --seed S <prop> <index>: print the generated case (debugging aid)
+        let prop = args.extra.first().cloned().unwrap_or("C01".to_string());
+        let idx: u64 = args.extra.get(1).and_then(|s| s.parse().ok()).unwrap_or(0);
+        let (c, _) = int::gen_case(&prop, args.seed, idx);
+        println!("{}", serde_json::json!({"xml": c.xml, "events": c.events, "single": c.single}));
+        return;
+    }
     let mut model = proto::Model::spawn(&args.model);
     let mut rep = match args.family.as_str() {
         "c19" => c19::run(&args, &mut model),
+        "c01" => int::run(&args, &mut model, "C01"),
+        "c02" => int::run(&args, &mut model, "C02"),
+        "c03" => int::run(&args, &mut model, "C03"),
+        "c06" => int::run(&args, &mut model, "C06"),
+        "c07" => int::run(&args, &mut model, "C07"),
         f => {
             eprintln!("unknown family {}", f);
             std::process::exit(2);
